@@ -232,21 +232,7 @@ Definition B_client_late (p : params) (sh : shape) : Z := Z.of_nat (n_left sh) *
 (* ------------------------------------------------------------------------------------------ *)
 (* 3. the client machine (Model/Metrics.v section E) after the stop signal                       *)
 
-(* Which steps of the client machine remain possible once inputClosed has been signalled: Go's select takes a
-   ready case, never "default", and Awaitable.Wait returns at once when the signal is already raised:
-     CRetryElapsed   no: inputClosed.Wait(ForwarderRetryInterval) returns true immediately
-     CRecoveryDone   no: select { inputClosed | leftover | default } has a ready case
-     CReconnect      environment: no SIGUSR1 and no max-duration expiry during the shutdown
-     CTake           only while chunks are left in the closed output channel (budget w)
-     CStop           the signal is raised once *)
-Definition post_stop_ok (w : Z) (e : c_event) : bool :=
-  match e with
-  | CRetryElapsed | CRecoveryDone | CReconnect | CStop => false
-  | CTake _ => 0 <? w
-  | _ => true
-  end.
-
-Definition budget_after (w : Z) (e : c_event) : Z := match e with CTake _ => w - 1 | _ => w end.
+(* post_stop_ok / budget_after: Model/Metrics.v (section E) *)
 
 (* runs of the client after the stop, with the budget of chunks still in the closed output channel *)
 Fixpoint c_run_stop (cfg : ccfg) (s : cstate) (w : Z) (evs : list c_event) : option (cstate * Z) :=
